@@ -91,8 +91,25 @@ class BmcOb(Ob):
                     res["known_hit"][sig] = 1
                     res["verdict"] = "CONFIRMED"
                 else:
+                    # prefer a counterexample the real-thread replay can follow exactly: if this one switches threads
+                    # inside a source line, ask again with switches restricted to line starts
+                    note = ""
+                    if self.nthreads > 1:
+                        from vf import bmc_replay
+
+                        _, approximate = bmc_replay.segments([tuple(s) for s in cex["trace"]], self.nthreads)
+                        if approximate:
+                            # (few preemptions: schedules the solver picks freely switch threads at almost every step)
+                            r2, dt2, _, cex2 = bmc.check(methods, locks, self.nthreads, self.depth, self.max_preempt if self.max_preempt is not None else 3, self.timeout, replayable=True)
+                            queries += 1
+                            stime += dt2
+                            if r2 == "sat":
+                                cex, note = cex2, " (schedule restricted to thread switches at line starts, for exact replay)"
+                                sig = "C20/bmc/" + "+".join(cex["kind"])
+                            else:
+                                note = f" (no counterexample with switches only at line starts: {r2}; the replay of this one is approximate)"
                     res["verdict"] = "REFUTED"
-                    res["cex"] = {"args": {"trace": [list(s) for s in cex["trace"]], "nthreads": self.nthreads, "depth": self.depth, "init_table": cex["init_table"]}, "source": "bmc", "clause": "dispatch table restored at quiescent points / concurrent copies succeed", "sig": sig, "detail": f"schedule of {len(cex['trace'])} steps; violation kinds {cex['kind']}"}
+                    res["cex"] = {"args": {"trace": [list(s) for s in cex["trace"]], "nthreads": self.nthreads, "depth": self.depth, "init_table": cex["init_table"]}, "source": "bmc", "clause": "dispatch table restored at quiescent points / concurrent copies succeed", "sig": sig, "detail": f"schedule of {len(cex['trace'])} steps; violation kinds {cex['kind']}{note}"}
             else:
                 res["verdict"] = "NOT_EXHAUSTED"
                 res["error"] = f"solver answered {r} within {self.timeout}s"
